@@ -12,6 +12,8 @@ pub enum ExecKind {
     Pike,
 }
 
+pub const ADAPTORS: [&str; 8] = ["count", "last", "nth", "size_hint", "fold", "for_each", "collect", "find_nonempty"];
+
 #[derive(Clone, Copy, PartialEq, Eq, Debug, Hash)]
 pub enum InputKind {
     Utf8,
@@ -297,7 +299,7 @@ pub fn op_to_json(op: &Op) -> J {
             .set("inner", reref_to_json(inner)),
         OpKind::Rewrite { hay, text } => J::obj().set("op", J::s("rewrite")).set("hay", J::u(*hay as u64)).set("text", J::s(text)),
         OpKind::Compile { re, hay } => J::obj().set("op", J::s("compile")).set("re", J::u(*re as u64)).set("hay", J::u(*hay as u64)),
-        OpKind::Adaptor { h, kind, k } => J::obj().set("op", J::s(["count", "last", "nth", "size_hint"][(*kind % 4) as usize])).set("h", J::u(*h as u64)).set("k", J::u(*k as u64)),
+        OpKind::Adaptor { h, kind, k } => J::obj().set("op", J::s(ADAPTORS[(*kind % 8) as usize])).set("h", J::u(*h as u64)).set("k", J::u(*k as u64)),
         OpKind::ReplacePanic { re, hay, k } => J::obj().set("op", J::s("replace_panic")).set("re", reref_to_json(re)).set("hay", J::u(*hay as u64)).set("k", J::u(*k as u64)),
         OpKind::Burst { re, hay, n } => J::obj().set("op", J::s("burst")).set("re", reref_to_json(re)).set("hay", J::u(*hay as u64)).set("n", J::u(*n as u64)),
     };
@@ -338,7 +340,7 @@ pub fn op_from_json(j: &J) -> Result<Op, String> {
         },
         "rewrite" => OpKind::Rewrite { hay: u("hay")?, text: j.get("text").and_then(|v| v.as_str()).ok_or("text")?.to_string() },
         "compile" => OpKind::Compile { re: u("re")?, hay: u("hay")? },
-        "count" | "last" | "nth" | "size_hint" => OpKind::Adaptor { h: u("h")?, kind: ["count", "last", "nth", "size_hint"].iter().position(|x| *x == name).unwrap() as u32, k: u("k").unwrap_or(0) },
+        "count" | "last" | "nth" | "size_hint" | "fold" | "for_each" | "collect" | "find_nonempty" => OpKind::Adaptor { h: u("h")?, kind: ADAPTORS.iter().position(|x| *x == name).unwrap() as u32, k: u("k").unwrap_or(0) },
         "replace_panic" => OpKind::ReplacePanic { re: reref_from_json(j.get("re").ok_or("re")?)?, hay: u("hay")?, k: u("k")? },
         "burst" => OpKind::Burst { re: reref_from_json(j.get("re").ok_or("re")?)?, hay: u("hay")?, n: u("n")? },
         _ => return Err(format!("unknown op {}", name)),
